@@ -19,9 +19,9 @@ func (f *fakeStorage) GetRangeIterator(s, e []byte) (iterator.Iterator, error) {
 	return &emptyIterator{}, nil
 }
 
-// VerifBeginTimeout: Begin while another transaction holds the lock; the 10 s deadline may fire at any moment.
+// VerifC17_BeginTimeoutNoLeak: Begin while another transaction holds the lock; the 10 s deadline may fire at any moment.
 // When everything has settled, a Begin that reported failure must not have left a transaction holding the lock.
-func VerifBeginTimeout() {
+func VerifC17_BeginTimeoutNoLeak() {
 	mgr := NewManager(&fakeStorage{}, nil)
 	reg := NewRegistry()
 	holder, err := mgr.BeginTransaction(false)
